@@ -74,6 +74,11 @@ CLAIMS = {
   text="Exploration: random family graphs are perturbed by combinations of 20 structural fault kinds (dangling, wrong-kind and empty references, missing/odd names incl. invalid UTF-8, self and cyclic relations, duplicate pointers, empty families, untitled sources, odd dates, ...). Every decodable file goes to the built gedcom binary with a rotating third of ~100 command lines (warnings; publish x visibility x page switches x jobs; diff x show x sort; 20 documented-style queries x 5 formats; two-document queries) - exit 0 or exit 1 with an ERROR: line, never a panic/fatal error/exit 2/hang - and through the library traversals behind the commands in process (recovered panics, in-memory publish in three modes, 30 s watchdog). A run keeps every distinct crash signature.",
   note="Premise: the decoder accepts the file. A hang is two consecutive 20 s timeouts of a command that normally takes ~10 ms. 'tune' is not in the statement's list.",
   design="6.14"),
+ "C15": dict(
+  technique="exhaustive token-sequence enumeration + grammar-based PBT over reflected accessors (rapid) + mutated examples/random bytes + CLI sample; native go fuzzing in thorough; oracle: value-or-error, no panic/fatal/hang",
+  text="Exploration: every token sequence up to length 3 (thorough 4) over a 40-token alphabet; well-formed programs of bounded depth whose accessors come from all method/field names reachable by reflection from *Document plus type-following chains that mostly evaluate to values; documented examples under token mutations; random bytes; on empty, tiny and family documents and with two documents; every value goes through all five formatters; a sample runs through the built 'gedcom query'. Oracle: ParseString gives exactly one of engine/error, Evaluate and every Formatter.Write return; recovered panics are classified by value and innermost frame and a run keeps every distinct signature; stack overflows are caught through the breadcrumb of the dying child; a 60 s watchdog reports hangs. Thorough adds a coverage-guided native fuzz target.",
+  note="A fresh document per evaluation. Random-byte queries are bounded to 256 bytes (quadratic tokenizer). A panic that the engine recovers and returns as an error counts as an error.",
+  design="6.15"),
  "C20": dict(
   technique="model-based PBT (rapid): warnings oracle evaluated on generated facts (day numbers) vs Document.Warnings(), metamorphic record/child reordering, CLI line count",
   text="Exploration: family graphs with exact dates are generated so that each warning condition is met or not met, with the boundaries that whole days decide generated exactly (sibling gaps 0/1/2/3 days, child born the day before/of/after a parent's birth, later-group events the day before/of an earlier-group event) and margins only around the approximate thresholds (16 and 100 years, 9 months). The expected multiset of (kind, people, dates) is computed from the blueprint alone and must equal the typed projection of Document.Warnings() (name, context, people named in the message), also after reversing records and children; the built 'gedcom warnings' binary must print exactly one line per warning.",
